@@ -915,6 +915,16 @@ const TAGS: &[(&str, &str)] = &[
     ("swap", "C13"),
     ("SpendFunds", "C13"),
     ("treasury UpdateConfig", "C13"),
+    ("accepted by the dispatcher", "C08"),
+    ("EMPTY pending batch", "C06"),
+    ("already Received", "C06"),
+    ("not halted", "C10"),
+    ("non-zero totals", "C01,C03"),
+    ("at instantiation", "C06"),
+    ("create-denom", "C19"),
+    ("instantiate configured the LST denom", "C19,C14"),
+    ("instantiate with a well-formed", "C14"),
+    ("ResumeContract refused for the admin", "C08,C10,C12"),
     ("page", "C17"),
     ("paging", "C17"),
     ("Batches", "C17"),
@@ -1383,6 +1393,104 @@ fn fam_migrate(r: &mut Rng) -> Result<(), String> {
     Ok(())
 }
 
+/// what the dispatcher accepts as payment, and edge cases of the batch life cycle (C08 dispatch, C05, C06)
+fn fam_funds(r: &mut Rng) -> Result<(), String> {
+    let mut s = scenario(r);
+    if s.tl < 100 { s.tl = 1_000; s.tn = 1_500; }
+    let a = addrs(s.pp, s.np);
+    #[allow(non_snake_case, unused_variables)]
+    let (ADMIN, USER, USER2, ORACLE, STAKER, COLLECTOR, NATIVE_USER) = (a.admin.as_str(), a.user.as_str(), a.user2.as_str(), a.oracle.as_str(), a.staker.as_str(), a.collector.as_str(), a.native_user.as_str());
+    let mut deps = init(&s);
+    let lst = CONFIG.load(&deps.storage).unwrap().liquid_stake_token_denom;
+    let t0 = mock_env().block.time.seconds();
+    let go = |deps: &mut Deps, t: u64, who: &str, funds: &[Coin], m: ExecuteMsg| execute(deps.as_mut(), env_at(t), mock_info(who, funds), m);
+    let stake = ExecuteMsg::LiquidStake { mint_to: None, transfer_to_native_chain: None, expected_mint_amount: None };
+    let before = dump(&deps.storage);
+    // payments that are not exactly one coin of the right denom are refused without effect
+    let bad: Vec<(&str, Vec<Coin>, ExecuteMsg)> = vec![
+        ("LiquidStake without funds", vec![], stake.clone()),
+        ("LiquidStake paid in another denom", coins(5_000, "uosmo"), stake.clone()),
+        ("LiquidStake paid in the LST", coins(5_000, &lst), stake.clone()),
+        ("LiquidStake paid with two coins", vec![Coin::new(5_000, IBC_DENOM), Coin::new(1, "uosmo")], stake.clone()),
+        ("LiquidUnstake without funds", vec![], ExecuteMsg::LiquidUnstake {}),
+        ("LiquidUnstake paid in the staked asset", coins(50, IBC_DENOM), ExecuteMsg::LiquidUnstake {}),
+        ("LiquidUnstake paid with two coins", vec![Coin::new(5, &lst), Coin::new(1, "uosmo")], ExecuteMsg::LiquidUnstake {}),
+    ];
+    for (what, funds, m) in bad {
+        if go(&mut deps, t0, USER, &funds, m).is_ok() { return Err(format!("{what} was accepted by the dispatcher")); }
+        if dump(&deps.storage) != before { return Err(format!("refused {what} changed storage")); }
+    }
+    // deliveries in the wrong denom are refused
+    if go(&mut deps, t0, &hook_p(COLLECTOR, s.pp), &coins(1_000, "uosmo"), ExecuteMsg::ReceiveRewards {}).is_ok() { return Err("ReceiveRewards paid in another denom was accepted by the dispatcher".into()); }
+    // an empty pending batch cannot be submitted, even when it is due
+    if go(&mut deps, t0 + 86_400 + 5, USER2, &[], ExecuteMsg::SubmitBatch {}).is_ok() { return Err("SubmitBatch succeeded one second before or after on an EMPTY pending batch (must be non-empty)".into()); }
+    let q = (s.tl / 20).max(1);
+    go(&mut deps, t0, USER, &coins(q, &lst), ExecuteMsg::LiquidUnstake {}).map_err(|e| format!("set-up: {e}"))?;
+    // nothing can be withdrawn from, or delivered to, a batch that is still pending
+    if go(&mut deps, t0 + 10, USER, &[], ExecuteMsg::Withdraw { batch_id: 1 }).is_ok() { return Err("Withdraw from a batch that has not received its tokens succeeded (pending batch)".into()); }
+    if go(&mut deps, t0 + 3_000_000, &hook_p(STAKER, s.pp), &coins(1_000, IBC_DENOM), ExecuteMsg::ReceiveUnstakedTokens { batch_id: 1 }).is_ok() { return Err("ReceiveUnstakedTokens accepted before the unbonding period of a batch that was never submitted".into()); }
+    go(&mut deps, t0 + 86_400, USER2, &[], ExecuteMsg::SubmitBatch {}).map_err(|e| format!("set-up: {e}"))?;
+    let unb = t0 + 86_400 + 1_209_600;
+    if go(&mut deps, unb, &hook_p(STAKER, s.pp), &coins(1_000, "uosmo"), ExecuteMsg::ReceiveUnstakedTokens { batch_id: 1 }).is_ok() { return Err("ReceiveUnstakedTokens paid in another denom was accepted by the dispatcher".into()); }
+    if go(&mut deps, unb, &hook_p(STAKER, s.pp), &coins(1_000, IBC_DENOM), ExecuteMsg::ReceiveUnstakedTokens { batch_id: 7 }).is_ok() { return Err("ReceiveUnstakedTokens accepted before the unbonding period of a batch that does not exist".into()); }
+    go(&mut deps, unb, &hook_p(STAKER, s.pp), &coins(1_000, IBC_DENOM), ExecuteMsg::ReceiveUnstakedTokens { batch_id: 1 }).map_err(|e| format!("set-up: {e}"))?;
+    // a batch moves Submitted -> Received once
+    let b1 = BATCHES.load(&deps.storage, 1).unwrap();
+    if go(&mut deps, unb + 1, &hook_p(STAKER, s.pp), &coins(999, IBC_DENOM), ExecuteMsg::ReceiveUnstakedTokens { batch_id: 1 }).is_ok() {
+        return Err(format!("a second ReceiveUnstakedTokens for a batch that is already Received was accepted (recorded {:?} -> {:?}): expected amount changed / status moved backwards", b1.received_native_unstaked, BATCHES.load(&deps.storage, 1).unwrap().received_native_unstaked));
+    }
+    Ok(())
+}
+
+/// a fresh contract: halted, empty, first batch due one period later, sender is admin, create-denom emitted (C10, C06, C01, C12, C19, C14)
+fn fam_instantiate(r: &mut Rng) -> Result<(), String> {
+    use osmosis_std::types::osmosis::tokenfactory::v1beta1::MsgCreateDenom;
+    let s = scenario(r);
+    let a = addrs(s.pp, s.np);
+    let period = r.pick(&[1u64, 3_600, 86_400, 1_000_000]);
+    let t0 = 1_600_000_000 + r.next() % 100_000;
+    let mk = |denom: &str, channel: &str, staker: String, mons: Vec<String>| InstantiateMsg {
+        native_chain_config: UnsafeNativeChainConfig { token_denom: "utia".into(), account_address_prefix: s.np.into(), validator_address_prefix: format!("{}valoper", s.np),
+            validators: vec![a.val.clone()], unbonding_period: 1_209_600, staker_address: staker, reward_collector_address: a.collector.clone() },
+        protocol_chain_config: UnsafeProtocolChainConfig { account_address_prefix: s.pp.into(), ibc_token_denom: IBC_DENOM.into(), ibc_channel_id: channel.into(),
+            oracle_address: if s.oracle { Some(a.oracle.clone()) } else { None }, minimum_liquid_stake_amount: Uint128::new(s.min) },
+        protocol_fee_config: UnsafeProtocolFeeConfig { dao_treasury_fee: Uint128::new(s.fee_rate), treasury_address: if s.treasury { Some(a.user2.clone()) } else { None } },
+        liquid_stake_token_denom: denom.into(), batch_period: period, monitors: mons,
+    };
+    // malformed set-ups are refused
+    let bads: Vec<(&str, InstantiateMsg)> = vec![
+        ("a sub-denom with a digit", mk("umilk1", CHANNEL, a.staker.clone(), vec![])),
+        ("a sub-denom with surrounding blanks", mk(" umilkTIA", CHANNEL, a.staker.clone(), vec![])),
+        ("a channel without number", mk("umilkTIA", "channel-", a.staker.clone(), vec![])),
+        ("a staker under a foreign prefix", mk("umilkTIA", CHANNEL, b32("cosmos", 5), vec![])),
+        ("a monitor listed twice", mk("umilkTIA", CHANNEL, a.staker.clone(), vec![a.user2.clone(), a.user2.clone()])),
+        ("a monitor under a foreign prefix", mk("umilkTIA", CHANNEL, a.staker.clone(), vec![b32("cosmos", 9)])),
+    ];
+    let (what, m) = &bads[(r.next() % bads.len() as u64) as usize];
+    let mut d0 = mock_dependencies();
+    if instantiate(d0.as_mut(), env_at(t0), mock_info(&a.admin, &[]), m.clone()).is_ok() { return Err(format!("instantiate with {what} was accepted by validation")); }
+    let mut deps = mock_dependencies();
+    let resp = instantiate(deps.as_mut(), env_at(t0), mock_info(&a.admin, &[]), mk("umilkTIA", CHANNEL, a.staker.clone(), vec![a.user2.clone()])).map_err(|e| format!("instantiate with a well-formed configuration refused: {e}"))?;
+    let c = CONFIG.load(&deps.storage).unwrap();
+    if !c.stopped { return Err("a newly instantiated contract is not halted".into()); }
+    let contract = mock_env().contract.address.to_string();
+    if c.liquid_stake_token_denom != format!("factory/{contract}/umilkTIA") { return Err(format!("instantiate configured the LST denom {:?}", c.liquid_stake_token_denom)); }
+    let st = STATE.load(&deps.storage).unwrap();
+    if !(st.total_native_token.is_zero() && st.total_liquid_stake_token.is_zero() && st.total_fees.is_zero() && st.total_reward_amount.is_zero()) { return Err(format!("a newly instantiated contract has non-zero totals: staked total {} LST total {}", st.total_native_token, st.total_liquid_stake_token)); }
+    let p = PENDING_BATCH_ID.load(&deps.storage).unwrap();
+    let b = BATCHES.load(&deps.storage, p).unwrap();
+    if p != 1 || b.next_batch_action_time != Some(t0 + period) || !b.batch_total_liquid_stake.is_zero() { return Err(format!("new pending batch {p} due {:?} at instantiation, expected id 1 due {}", b.next_batch_action_time, t0 + period)); }
+    let created: Vec<(String, String)> = resp.messages.iter().filter_map(|m| match &m.msg {
+        CosmosMsg::Stargate { type_url, value } if type_url == "/osmosis.tokenfactory.v1beta1.MsgCreateDenom" => { let d = MsgCreateDenom::decode(value.as_slice()).unwrap(); Some((d.sender, d.subdenom)) }
+        _ => None }).collect();
+    if created != vec![(contract.clone(), "umilkTIA".to_string())] { return Err(format!("instantiate emitted create-denom messages {created:?}, expected one by the contract for sub-denom umilkTIA (mint messages would name a denom that was never created)")); }
+    // the instantiating account is the admin; nobody else is
+    if execute(deps.as_mut(), env_at(t0), mock_info(&a.user, &[]), ExecuteMsg::CircuitBreaker {}).is_ok() { return Err("CircuitBreaker succeeded for an ordinary user on a fresh contract".into()); }
+    if execute(deps.as_mut(), env_at(t0), mock_info(&a.user, &coins(1_000_000, IBC_DENOM)), ExecuteMsg::LiquidStake { mint_to: None, transfer_to_native_chain: None, expected_mint_amount: None }).is_ok() { return Err("LiquidStake succeeded while the contract is halted (fresh contract, never resumed)".into()); }
+    execute(deps.as_mut(), env_at(t0), mock_info(&a.admin, &[]), ExecuteMsg::ResumeContract { total_native_token: Uint128::zero(), total_liquid_stake_token: Uint128::zero(), total_reward_amount: Uint128::zero() }).map_err(|e| format!("ResumeContract refused for the admin (the instantiating account): {e}"))?;
+    Ok(())
+}
+
 fn run_family(f: &str, r: &mut Rng) -> Result<(), String> {
     match f {
         "stake" => fam_stake(r),
@@ -1395,6 +1503,8 @@ fn run_family(f: &str, r: &mut Rng) -> Result<(), String> {
         "recover" => fam_recover(r),
         "halt" => fam_halt(r),
         "ibc" => fam_ibc(r),
+        "funds" => fam_funds(r),
+        "instantiate" => fam_instantiate(r),
         "migrate" => fam_migrate(r),
         "queries" => fam_queries(r),
         "config" => fam_config(r),
@@ -1404,7 +1514,7 @@ fn run_family(f: &str, r: &mut Rng) -> Result<(), String> {
     }
 }
 
-const FAMILIES: [&str; 15] = ["queries", "ibc", "migrate", "stake", "rewards", "batch", "auth", "ownership", "fee_withdraw", "validation", "recover", "treasury", "treasury_ownership", "halt", "config"];
+const FAMILIES: [&str; 17] = ["queries", "ibc", "migrate", "funds", "instantiate", "stake", "rewards", "batch", "auth", "ownership", "fee_withdraw", "validation", "recover", "treasury", "treasury_ownership", "halt", "config"];
 
 thread_local! { static PANIC_AT: std::cell::RefCell<String> = std::cell::RefCell::new(String::new()); }
 
